@@ -154,10 +154,16 @@ def run(ctx):
         item_info.append({q_: v_ for q_, v_ in inp.items() if q_ != "table"})
         # ---------------- rescale_pseudopressure
         if k % 2 == 0:
-            df = pd.DataFrame({"pressure": p, "pseudopressure": tb0["pseudopressure"], "viscosity": tb0["viscosity"]})
+            cols_r = {"pressure": np.array(p, float), "pseudopressure": np.array(tb0["pseudopressure"], float), "viscosity": np.array(tb0["viscosity"], float)}
+            # the table as a DataFrame or as a plain dict of arrays (fixed 2026-10, c0aea80: a dict used to raise AttributeError)
+            df = pd.DataFrame(cols_r) if k % 4 == 0 else cols_r
             pf, pi2 = float(rng.uniform(p[0], p[len(p) // 2])), float(rng.uniform(p[len(p) // 2] + 1, p[-1]))
             snap2 = snapshot(df)
-            out = rescale_pseudopressure(df, pf, pi2)
+            try:
+                out = rescale_pseudopressure(df, pf, pi2)
+            except Exception as e:  # noqa: BLE001
+                bad("rescale_pseudopressure fails on an admissible table", dict(p_frac=pf, p_i=pi2, rows=len(p), container="DataFrame" if k % 4 == 0 else "dict of arrays"), repr(e)[:160])
+                continue
             ev += 1
             from scipy.interpolate import interp1d
             L = interp1d(out["pressure"], out["pseudopressure"])
